@@ -1,0 +1,9 @@
+//go:build verif
+
+package nat
+
+// NatSessionKeyForVerif names natSessionKey, the unexported mirror of struct nat_key that
+// purgeSubscriberState reads the nat_sessions / nat_reverse entries with, so that the layout
+// harness can marshal and unmarshal that very type against the kernel maps (C06).
+// Verification harness only.
+type NatSessionKeyForVerif = natSessionKey
